@@ -118,6 +118,9 @@ class IkeSaController:
         small_tsr = TrafficSelector.from_network(ip_network(xfrm_acquire.sel.daddr.to_ipaddr(sel_family)),
                                                  xfrm_acquire.sel.dport, xfrm_acquire.sel.proto)
         request = ike_sa.process_acquire(small_tsi, small_tsr, xfrm_acquire.policy.index >> 3)
+        if request is None and ike_sa.state == IkeSa.State.INITIAL and ike_sa in self.ike_sas:
+            # nothing to negotiate (unknown policy index): the IKE_SA created for this ACQUIRE is not kept
+            self.ike_sas.remove(ike_sa)
 
         # look for ipsec configuration
         return request, ike_sa.my_addr, ike_sa.peer_addr
